@@ -422,6 +422,9 @@ def labelings(n: int, level: str) -> List[tuple]:
         if level == "ties":
             cased = tuple(("n" if i % 2 == 0 else "N") + str(i // 2) for i in ident)
             out.append(("", cased, rev))
+            # same kind and index in the three flavours of generated names: equal under a key that drops the flavour
+            flav = tuple(("k_block_%d", "k_region_%d", "__scfg_k_var_%d__")[i % 3] % (i // 3) for i in ident)
+            out.append(("", flav, ident))
     elif level in ("few", "mix", "eo"):
         rot = tuple((i + 1) % n for i in ident)
         # evens-then-odds: neighbours in BFS order get names far apart, so the name ranges of sibling loops / arms interleave
@@ -492,3 +495,48 @@ def ast_payload(i: int, nsucc: int, convention: str = "ast") -> list:
     elif nsucc == 0:
         stmts = list(ast.parse(f"return c({i})").body)
     return stmts
+
+
+# ---------------------------------------------------------------------------------------
+# one block of EVERY registered block type (the registry is read from the library, so a new type without a recipe here is a
+# harness error, not a silent gap), each with a non-trivial payload, in one hand-built graph with one region
+
+def one_of_each_type():
+    from numba_scfg.core.datastructures import basic_block as bb
+    from numba_scfg.core.datastructures.scfg import SCFG
+    classes = [c for c in bb.block_type_names.values() if c is not bb.RegionBlock]
+    order = ["entry"] + [f"t{i}" for i in range(len(classes))] + ["the_region", "last"]
+    blocks = {}
+
+    def make(cls, name, nxt, nxt2):
+        if issubclass(cls, bb.SyntheticBranch):
+            return cls(name=name, _jump_targets=(nxt, nxt2), backedges=(), variable=f"ctl_{name}",
+                       branch_value_table={0: nxt, 1: nxt2, 2: nxt})
+        if cls is bb.SyntheticAssignment:
+            return cls(name=name, _jump_targets=(nxt,), backedges=(), variable_assignment={f"va_{name}": 1, f"vb_{name}": 7})
+        if cls is bb.PythonBytecodeBlock:
+            return cls(name=name, _jump_targets=(nxt,), begin=10, end=20)
+        if issubclass(cls, bb.BasicBlock):
+            return cls(name=name, _jump_targets=(nxt,))
+        from .kernel import HarnessError
+        raise HarnessError(f"no recipe for block type {cls.__name__}")
+    blocks["entry"] = bb.BasicBlock(name="entry", _jump_targets=("t0",))
+    for i, cls in enumerate(classes):
+        name = f"t{i}"
+        nxt = order[order.index(name) + 1]
+        nxt2 = order[min(order.index(name) + 2, len(order) - 1)]
+        blocks[name] = make(cls, name, nxt, nxt2)
+    inner = SCFG(graph={
+        "r_head": bb.SyntheticBranch(name="r_head", _jump_targets=("r_a", "r_latch"), backedges=(), variable="ctl_r",
+                                     branch_value_table={0: "r_a", 1: "r_latch"}),
+        "r_a": bb.SyntheticAssignment(name="r_a", _jump_targets=("r_latch",), backedges=(), variable_assignment={"ctl_r": 1}),
+        "r_latch": bb.SyntheticExitingLatch(name="r_latch", _jump_targets=("last", "r_head"), backedges=("r_head",), variable="ctl_l",
+                                            branch_value_table={0: "last", 1: "r_head"}),
+    })
+    top = SCFG(graph=blocks)
+    region = bb.RegionBlock(name="the_region", _jump_targets=("last",), backedges=(), kind="loop", header="r_head", exiting="r_latch",
+                            subregion=inner, parent_region=top.region)
+    object.__setattr__(inner, "region", region)
+    top.graph["the_region"] = region
+    top.graph["last"] = bb.BasicBlock(name="last", _jump_targets=())
+    return top, [c.__name__ for c in classes] + ["RegionBlock"]
